@@ -29,12 +29,18 @@ fn dump(t: &T, d: usize, it: &mut Interner) -> Value {
             }
         }
     }
+    // what an observer reads at every node position (the stored value, or the default of the level when nothing is stored)
+    let mut reads = Vec::new();
+    for l in 0..=d {
+        let row: Vec<i64> = (0..(1usize << l)).map(|i| t.get_elem(Key::new(l, i)).map(|v| it.id(&v) as i64).unwrap_or(-1)).collect();
+        reads.push(row);
+    }
     let nk = t.db.get(u64::MAX.to_be_bytes()).ok().flatten().map(|b| {
         let mut a = [0u8; 8];
         a.copy_from_slice(&b[..8]);
         usize::from_be_bytes(a) as i64
     }).unwrap_or(-1);
-    json!({"nodes": nodes, "dbnext": nk, "next": t.leaves_set(), "root": it.id(&t.root())})
+    json!({"nodes": nodes, "reads": reads, "dbnext": nk, "next": t.leaves_set(), "root": it.id(&t.root())})
 }
 
 fn facts(leaves: &[Fr], it: &mut Interner) {
